@@ -11,7 +11,8 @@ Record c07_obs := mkObs {
   o_after : str;      (* base.to_text() afterwards, after mutating the result *)
   o_nav2 : str;       (* base.navigate(ref1).navigate(ref2).to_text() *)
   o_nb1 : str; o_nb2 : str;   (* URL(base).normalize() once / twice *)
-  o_nr1 : str; o_nr2 : str    (* URL(ref1).normalize() once / twice *)
+  o_nr1 : str; o_nr2 : str;   (* URL(ref1).normalize() once / twice *)
+  o_ref1 : str; o_ref2 : str  (* the references as handed over: the text itself, or what the URL object prints *)
 }.
 
 Record c07_case := mkCase {
@@ -26,7 +27,8 @@ Definition obs_eqb (a b : c07_obs) : bool :=
   str_eqb (o_nav1_again a) (o_nav1_again b) &&
   str_eqb (o_after a) (o_after b) && str_eqb (o_nav2 a) (o_nav2 b) &&
   str_eqb (o_nb1 a) (o_nb1 b) && str_eqb (o_nb2 a) (o_nb2 b) &&
-  str_eqb (o_nr1 a) (o_nr1 b) && str_eqb (o_nr2 a) (o_nr2 b).
+  str_eqb (o_nr1 a) (o_nr1 b) && str_eqb (o_nr2 a) (o_nr2 b) &&
+  str_eqb (o_ref1 a) (o_ref1 b) && str_eqb (o_ref2 a) (o_ref2 b).
 
 (* what the harness does for c_unrooted: URL.from_parts(scheme, host, path_parts[1:], query_params,
    fragment, port, username, password) when there is a host and the parsed path is ('', s, ...) with s non-empty *)
@@ -41,8 +43,8 @@ Definition unroot (b : url) : url :=
 
 (* the model run on the case *)
 Definition c07_model (c : c07_case) : option c07_obs :=
-  match url_of_text (c_base c), url_of_text (c_ref1 c) with
-  | Some b0, Some r =>
+  match url_of_text (c_base c), url_of_text (c_ref1 c), url_of_text (c_ref2 c) with
+  | Some b0, Some r, Some r2 =>
       let nb := normalize b0 in
       let b := if c_unrooted c then unroot b0 else b0 in
       match navigate b (c_ref1 c) (c_as_url1 c) with
@@ -52,12 +54,14 @@ Definition c07_model (c : c07_case) : option c07_obs :=
               let nr := normalize r in
               Some (mkObs (to_text b) (to_text n1) (to_text n1) (to_text b) (to_text n2)
                           (to_text nb) (to_text (normalize nb))
-                          (to_text nr) (to_text (normalize nr)))
+                          (to_text nr) (to_text (normalize nr))
+                          (if c_as_url1 c then to_text r else c_ref1 c)
+                          (if c_as_url2 c then to_text r2 else c_ref2 c))
           | None => None
           end
       | None => None
       end
-  | _, _ => None
+  | _, _, _ => None
   end.
 
 (* domain of the property: absolute base with an authority (an empty one, as in
@@ -81,14 +85,14 @@ Definition ref_in_domain (ref : str) : bool :=
 (* the implementation's observation satisfies the Spec *)
 Definition c07_holds (c : c07_case) : bool :=
   let o := c_obs c in
-  base_in_domain (o_before o) && ref_in_domain (c_ref1 c) && ref_in_domain (c_ref2 c) &&
-  spec_navigate (o_before o) (c_ref1 c) (o_nav1 o) &&
-  spec_query (o_before o) (c_ref1 c) (o_nav1 o) &&
+  base_in_domain (o_before o) && ref_in_domain (o_ref1 o) && ref_in_domain (o_ref2 o) &&
+  spec_navigate (o_before o) (o_ref1 o) (o_nav1 o) &&
+  spec_query (o_before o) (o_ref1 o) (o_nav1 o) &&
   spec_clean (o_nav1 o) &&
   str_eqb (o_before o) (o_after o) &&
   str_eqb (o_nav1 o) (o_nav1_again o) &&
-  spec_chain (o_before o) (c_ref1 c) (c_ref2 c) (o_nav2 o) &&
-  spec_query_chain (o_before o) (c_ref1 c) (c_ref2 c) (o_nav2 o) &&
+  spec_chain (o_before o) (o_ref1 o) (o_ref2 o) (o_nav2 o) &&
+  spec_query_chain (o_before o) (o_ref1 o) (o_ref2 o) (o_nav2 o) &&
   spec_clean (o_nav2 o) &&
   spec_normalized (o_before o) (o_nb1 o) (o_nb2 o) &&
   str_eqb (o_nr1 o) (o_nr2 o).
@@ -104,6 +108,6 @@ Definition c07_verdict (c : c07_case) : verdict :=
 (* for replay files: what the model computes and what the Spec requires *)
 Definition c07_explain (c : c07_case) :=
   (c07_model c,
-   target (o_before (c_obs c)) (c_ref1 c),
-   match target (o_before (c_obs c)) (c_ref1 c) with
-   | Some t1 => target t1 (c_ref2 c) | None => None end).
+   target (o_before (c_obs c)) (o_ref1 (c_obs c)),
+   match target (o_before (c_obs c)) (o_ref1 (c_obs c)) with
+   | Some t1 => target t1 (o_ref2 (c_obs c)) | None => None end).
